@@ -362,8 +362,10 @@ func (p *parser) parseType() *TypeExpr {
 	case t.kind == "id" && t.text == "func":
 		p.next()
 		p.skipBalanced("(", ")")
-		// optional result type: skip a single type if it follows
-		if tt := p.peek(); tt.kind == "id" && tt.text != "requires" {
+		// optional result type: a parenthesised list or a single type
+		if p.isOp("(") {
+			p.skipBalanced("(", ")")
+		} else if tt := p.peek(); (tt.kind == "id" && tt.text != "requires") || (tt.kind == "op" && (tt.text == "*" || tt.text == "[")) {
 			p.parseType()
 		}
 		return &TypeExpr{Kind: "name", Name: "func"}
@@ -594,6 +596,7 @@ type FuncContract struct {
 	Asserts     []Clause // extra call-site/at-exit assertions (unused for now)
 	SigSrc      string
 	GhostSets   []GhostSet // ghost assignments performed at every return
+	FParams     map[string]*FuncContract // contracts of function-typed parameters, by parameter name
 	// closures expanded at iteration primitives: invariants keyed by ordinal
 	Iterates *IterSpec
 }
@@ -641,7 +644,14 @@ type MonitorDecl struct {
 	Atomics   []string
 }
 
+type GhostComp struct {
+	Name string
+	T    *TypeExpr
+	Pkg  string
+}
+
 type ContractFile struct {
+	GhostComps []GhostComp
 	Path      string
 	PkgPath   string            // package the file belongs to ("" for spec files)
 	Imports   map[string]string // alias -> import path
@@ -657,7 +667,7 @@ var declKeywords = map[string]bool{
 	"import": true, "ghost": true, "pure": true, "axiom": true, "func": true, "extern": true,
 	"requires": true, "ensures": true, "modifies": true, "allocates": true, "loop": true, "invariant": true,
 	"inline": true, "trusted": true, "monitor": true, "guards": true, "atomics": true, "heappure": true,
-	"iterates": true, "nomod": true, "ghostset": true, "iface": true, "iter": true, "callsvia": true,
+	"iterates": true, "nomod": true, "ghostset": true, "iface": true, "iter": true, "callsvia": true, "fparam": true, "endfparam": true,
 }
 
 // logicalLines extracts //@ lines and joins continuation lines (those not starting with a keyword).
@@ -799,6 +809,7 @@ func parseSignature(src string, fc *FuncContract) (recvType *TypeExpr, name stri
 func ParseContractFile(path, pkgPath, text string) (*ContractFile, error) {
 	cf := &ContractFile{Path: path, PkgPath: pkgPath, Imports: map[string]string{}}
 	var cur *FuncContract
+	var outerFn *FuncContract
 	var curLoop *LoopContract
 	var curMon *MonitorDecl
 	lines := logicalLines(text)
@@ -819,6 +830,19 @@ func ParseContractFile(path, pkgPath, text string) (*ContractFile, error) {
 			}
 			cf.Imports[parts[0]] = strings.Trim(parts[1], `"`)
 		case "ghost":
+			if strings.HasPrefix(rest, "comp ") {
+				// ghost comp name type: a ghost component indexed by any reference-like value
+				parts := strings.SplitN(strings.TrimSpace(rest[5:]), " ", 2)
+				if len(parts) != 2 {
+					return nil, fail(l, fmt.Errorf("ghost comp name type"))
+				}
+				ty, err := parseTypeString(strings.TrimSpace(parts[1]))
+				if err != nil {
+					return nil, fail(l, err)
+				}
+				cf.GhostComps = append(cf.GhostComps, GhostComp{Name: parts[0], T: ty, Pkg: pkgPath})
+				continue
+			}
 			// ghost field T.name type
 			r := strings.TrimSpace(strings.TrimPrefix(rest, "field"))
 			sp := strings.IndexAny(r, " \t")
@@ -894,7 +918,31 @@ func ParseContractFile(path, pkgPath, text string) (*ContractFile, error) {
 			}
 			fc.Key = contractKey(cf, recvT, name)
 			cf.Funcs = append(cf.Funcs, fc)
-			cur, curLoop, curMon = fc, nil, nil
+			cur, curLoop, curMon, outerFn = fc, nil, nil, nil
+		case "fparam":
+			if cur == nil {
+				return nil, fail(l, fmt.Errorf("fparam outside func"))
+			}
+			owner := cur
+			if outerFn != nil {
+				owner = outerFn
+			}
+			fc := &FuncContract{File: path, SigSrc: rest, Trusted: true}
+			_, name, err := parseSignature(rest, fc)
+			if err != nil {
+				return nil, fail(l, err)
+			}
+			fc.Key = owner.Key + "$fparam:" + name
+			if owner.FParams == nil {
+				owner.FParams = map[string]*FuncContract{}
+			}
+			owner.FParams[name] = fc
+			outerFn = owner
+			cur, curLoop = fc, nil
+		case "endfparam":
+			if outerFn != nil {
+				cur, outerFn, curLoop = outerFn, nil, nil
+			}
 		case "requires", "ensures", "invariant":
 			c, err := parseClause(rest)
 			if err != nil {
